@@ -40,22 +40,22 @@ def bin (k : NodeKind) (ty : CTy) (a b : CNode) : CNode := .mk k ty 0 a b .null 
 def mkCast (a : CNode) (ty : CTy) : CNode := un .ND_CAST ty a
 
 /-- arithmetic arms of `add_type`: `usual_arith_conv(&lhs, &rhs); node->ty = lhs->ty` -/
-def arith (k : NodeKind) (a b : CNode) : CNode :=
+def mkArith (k : NodeKind) (a b : CNode) : CNode :=
   let t := getCommonType (nodeTy a) (nodeTy b)
   bin k t (mkCast a t) (mkCast b t)
 /-- comparison arms: `usual_arith_conv(&lhs, &rhs); node->ty = ty_int` -/
-def compare (k : NodeKind) (a b : CNode) : CNode :=
+def mkCompare (k : NodeKind) (a b : CNode) : CNode :=
   let t := getCommonType (nodeTy a) (nodeTy b)
   bin k tyInt (mkCast a t) (mkCast b t)
 /-- `ND_NEG`, `ND_BITNOT`, `ND_SHL`, `ND_SHR`: the (left) operand is promoted, the result has the promoted type -/
-def promoted (k : NodeKind) (a b : CNode) : CNode :=
+def mkPromoted (k : NodeKind) (a b : CNode) : CNode :=
   let t := getCommonType tyInt (nodeTy a)
   .mk k t 0 (mkCast a t) b .null .null .null
 
 def elabE : CExpr → CNode
   | .lit t v => .mk .ND_NUM (descr t) (BitVec.ofInt 64 v) .null .null .null .null .null
-  | .un .neg e => promoted .ND_NEG (elabE e) .null
-  | .un .bitnot e => promoted .ND_BITNOT (elabE e) .null
+  | .un .neg e => mkPromoted .ND_NEG (elabE e) .null
+  | .un .bitnot e => mkPromoted .ND_BITNOT (elabE e) .null
   | .un .lognot e => un .ND_NOT tyInt (elabE e)
   | .un .plus e =>
     let n := elabE e
@@ -64,22 +64,22 @@ def elabE : CExpr → CNode
     let x := elabE a
     let y := elabE b
     match op with
-    | .add => arith .ND_ADD x y
-    | .sub => arith .ND_SUB x y
-    | .mul => arith .ND_MUL x y
-    | .div => arith .ND_DIV x y
-    | .mod => arith .ND_MOD x y
-    | .band => arith .ND_BITAND x y
-    | .bor => arith .ND_BITOR x y
-    | .bxor => arith .ND_BITXOR x y
-    | .shl => promoted .ND_SHL x y
-    | .shr => promoted .ND_SHR x y
-    | .eq => compare .ND_EQ x y
-    | .ne => compare .ND_NE x y
-    | .lt => compare .ND_LT x y
-    | .le => compare .ND_LE x y
-    | .gt => compare .ND_LT y x          -- relational(): `a > b` is built as `b < a`
-    | .ge => compare .ND_LE y x
+    | .add => mkArith .ND_ADD x y
+    | .sub => mkArith .ND_SUB x y
+    | .mul => mkArith .ND_MUL x y
+    | .div => mkArith .ND_DIV x y
+    | .mod => mkArith .ND_MOD x y
+    | .band => mkArith .ND_BITAND x y
+    | .bor => mkArith .ND_BITOR x y
+    | .bxor => mkArith .ND_BITXOR x y
+    | .shl => mkPromoted .ND_SHL x y
+    | .shr => mkPromoted .ND_SHR x y
+    | .eq => mkCompare .ND_EQ x y
+    | .ne => mkCompare .ND_NE x y
+    | .lt => mkCompare .ND_LT x y
+    | .le => mkCompare .ND_LE x y
+    | .gt => mkCompare .ND_LT y x          -- relational(): `a > b` is built as `b < a`
+    | .ge => mkCompare .ND_LE y x
   | .land a b => bin .ND_LOGAND tyInt (elabE a) (elabE b)
   | .lor a b => bin .ND_LOGOR tyInt (elabE a) (elabE b)
   | .cond c a b =>
